@@ -49,6 +49,28 @@ theorem ord_dateOf (start : Sched.Date) (h : validDate start) (n : Nat) :
     show ordOf (nextDate (dateOf start n)) = _
     rw [ord_nextDate _ (dateOf_valid start h n), ih]; omega
 
+/-- the number of days between two simulated days is the difference of their ordinals, and the ordinal
+orders the simulated days exactly as the day index does -/
+theorem ord_diff (start : Sched.Date) (h : validDate start) (i j : Nat) :
+    ordOf (dateOf start j) - ordOf (dateOf start i) = (j : Int) - i := by
+  rw [ord_dateOf start h i, ord_dateOf start h j]; omega
+
+theorem ord_lt_iff (start : Sched.Date) (h : validDate start) (i j : Nat) :
+    ordOf (dateOf start i) < ordOf (dateOf start j) ↔ i < j := by
+  rw [ord_dateOf start h i, ord_dateOf start h j]; omega
+
+/-- the ordinal order and the calendar order (year, month, day) agree on the simulated days -/
+theorem ord_lt_iff_dateLt (start : Sched.Date) (h : validDate start) (i j : Nat) :
+    ordOf (dateOf start i) < ordOf (dateOf start j) ↔ dateLt (dateOf start i) (dateOf start j) := by
+  rw [ord_lt_iff start h]
+  constructor
+  · exact dateOf_strictMono start h i j
+  · intro hlt
+    rcases Nat.lt_trichotomy i j with hij | hij | hij
+    · exact hij
+    · subst hij; exact absurd hlt (dateLt_irrefl _)
+    · exact absurd (dateLt_trans hlt (dateOf_strictMono start h j i hij)) (dateLt_irrefl _)
+
 /-- 1970-01-01 is day 0; 2024-02-29 exists and is followed by March 1 -/
 example : ordOf ⟨1970, 1, 1⟩ = 0 ∧ ordOf ⟨2024, 3, 1⟩ = ordOf ⟨2024, 2, 28⟩ + 2 ∧
     ordOf ⟨2023, 3, 1⟩ = ordOf ⟨2023, 2, 28⟩ + 1 := by decide +kernel
